@@ -54,6 +54,23 @@ def check(ctx, run):
             if k is None:
                 continue
             if k[0] == "raw":
+                # a parameter that every caller fills with a string literal is literal text (a helper that prints a
+                # fixed opening handed in by its callers)
+                a0 = f.strip(f.args(c)[0])
+                if a0 is not None and a0["k"] == "DeclRefExpr" and a0.get("dk") == "ParmVar":
+                    pi = [i_ for i_, q in enumerate(f.params) if q["name"] == a0.get("name")]
+                    sites, allit = [], bool(pi)
+                    for g in prog.functions.values():
+                        for cc in g.calls():
+                            tg = cc.get("callee")
+                            if tg and tg.get("mn") == f.mn:
+                                arg = g.strip(g.args(cc)[pi[0]]) if pi and pi[0] < len(g.args(cc)) else None
+                                sites.append("%s: %s" % (g.qn, render(g, arg) if arg is not None else "?"))
+                                if arg is None or arg["k"] != "StringLiteral":
+                                    allit = False
+                    if allit and sites:
+                        run.ob("R1", "string argument %s (a parameter that all %d callers fill with a literal)" % (k[1], len(sites)), f.site, True, witness=sites)
+                        continue
                 run.ob("R1", "string argument %s" % k[1], f.site, False, witness=render(f, c),
                        what="non-literal string printed without printEscaped: a value containing ' ] | or a line break ends the service message early")
             else:
@@ -144,46 +161,95 @@ def check(ctx, run):
     guarded(run, r2)
 
     # ---------------- R3 ---------------------------------------------------
-    for f in writers:
-        paths = enumerate_paths(f)
-        for p in paths:
-            text = ""
-            for c in path_calls(prog, f, p):
-                k = string_print_kind(prog, f, c)
-                if k is None:
-                    continue
-                if k[0] == "lit":
-                    text += k[1]
-                elif k[0] == "esc":
-                    text += "V"
-                elif k[0] == "num":
-                    text += "0"
-                else:
-                    text += "R"
-            ok = bool(MSG_RE.match(text))
-            run.ob("R3", "framing on path [%s]" % p.describe(f), f.site, ok, witness=text,
-                   what="" if ok else "emitted literals do not form complete ##teamcity[...]\\n messages")
-            if f.name == "printCurrentTestStarted":
-                ign = "testIgnored" in text
-                val = p.val()
-                wr = [v for k, v in val.items() if k.endswith("willRun()")]
-                ok2 = len(wr) == 1 and (ign == (wr[0] is False))
-                run.ob("R3", "testIgnored iff !willRun() on path [%s]" % p.describe(f), f.site, ok2, witness=text)
-                asg = [(l, render(f, r)) for (l, r, n) in assignments(f, p)]
-                pn = f.params[0]["name"]
-                run.ob("R3", "start stores the test for the finish message on path [%s]" % p.describe(f), f.site, ("currtest_", "&" + pn) in asg, witness=asg)
-    fe = prog.fn(CLS + "::printCurrentTestEnded")
-    esc = [string_print_kind(prog, fe, c) for c in fe.calls()]
-    esc = [k[1] for k in esc if k and k[0] == "esc"]
-    run.ob("R3", "finish names the test stored at start", fe.site, esc == ["currtest_->getName().asCharString()"], witness=esc)
-    fg, fge = prog.fn(CLS + "::printCurrentGroupStarted"), prog.fn(CLS + "::printCurrentGroupEnded")
-    pn = fg.params[0]["name"]
-    asg = [(render(fg, a[0]), render(fg, a[1])) for c in fg.calls() if c["k"] == "CXXOperatorCallExpr" and c.get("callee", {}).get("qn", "").endswith("operator=") for a in [fg.args(c)]]
-    run.ob("R3", "suite start stores the group", fg.site, ("currGroup_", pn + ".getGroup()") in asg, witness=asg)
-    for g in (fg, fge):
-        esc = [string_print_kind(prog, g, c) for c in g.calls()]
-        esc = [k[1] for k in esc if k and k[0] == "esc"]
-        run.ob("R3", "suite message names the stored group", g.site, esc == ["currGroup_.asCharString()"], witness=esc)
+    # every writer folded with names that contain every special character; the emitted text must parse as complete
+    # service messages whose decoded attribute values are the original strings
+    NAME, OTHER, GROUP = "na'me|[x]\nq\rz", "other", "gr'p|"
+    MSG = re.compile(r"##teamcity\[(\w+)((?: \w+='(?:\|.|[^'|\[\]\n\r])*')*)\]\n")
+    ATTR = re.compile(r" (\w+)='((?:\|.|[^'|\[\]\n\r])*)'")
+
+    def decode(v):
+        return re.sub(r"\|(.)", lambda m: {"n": "\n", "r": "\r"}.get(m.group(1), m.group(1)), v)
+
+    def parse_messages(text):
+        out, pos = [], 0
+        while pos < len(text):
+            m = MSG.match(text, pos)
+            if not m:
+                return None
+            out.append((m.group(1), {k: decode(v) for k, v in ATTR.findall(m.group(2))}))
+            pos = m.end()
+        return out
+
+    def fold_writer(fname, env, answers=None):
+        answers = answers or {}
+        f = prog.fn(CLS + "::" + fname)
+        out = []
+
+        def pr(ev_, *a_):
+            v = a_[-1]
+            if isinstance(v, tuple) and v[0] == "str":
+                out.append(v[1])
+            elif isinstance(v, tuple) and v[0] == "ptr":
+                i_, s_ = v[2], ""
+                while ev_.env.get("%s[%d]" % (v[1], i_)) not in (None, 0):
+                    s_ += chr(ev_.env["%s[%d]" % (v[1], i_)] & 0xff)
+                    i_ += 1
+                out.append(s_)
+            elif isinstance(v, int):
+                out.append(str(v))
+            else:
+                raise Unknown("print of %r" % (v,))
+            return 0
+        pr.wants_ev = True
+        names = {100: NAME, 200: OTHER}
+        hooks = string_hooks({"UtestShell::getName": lambda o, *a_: ("str", names.get(o, "?")), "UtestShell::getGroup": lambda o, *a_: ("str", GROUP), "UtestShell::willRun": lambda *a_: answers.get("willRun", 1),
+                              "TestResult::getCurrentTestTotalExecutionTime": lambda *a_: 123, "TestResult::getCurrentGroupTotalExecutionTime": lambda *a_: 456,
+                              "TestFailure::getTestNameOnly": lambda *a_: ("str", NAME), "TestFailure::getFileName": lambda *a_: ("str", "fi'le.cpp"), "TestFailure::getFailureLineNumber": lambda *a_: 7,
+                              "TestFailure::getMessage": lambda *a_: ("str", "mess]age\nline2"), "TestFailure::getTestFileName": lambda *a_: ("str", "te|st.cpp"), "TestFailure::getTestLineNumber": lambda *a_: 3,
+                              "TestFailure::isOutsideTestFile": lambda *a_: answers.get("outside", 0), "TestFailure::isInHelperFunction": lambda *a_: answers.get("helper", 0)})
+        for pc in PRINT_CLASSES:
+            hooks[pc + "::print"] = pr
+            hooks[pc + "::printBuffer"] = pr
+        ev = Evaluator(prog, f, env=dict({q["name"]: 100 for q in f.params}, **env), calls=hooks)
+        ev.pass_object = True
+        ev.inline = {g.qn for g in prog.functions.values() if g.qn.startswith(CLS + "::") and g.name not in ("print", "printBuffer")}
+        ev.run_blocks(f.entry, max_steps=30000)
+        return "".join(out), ev.env
+    CASES = [
+        ("printCurrentTestStarted", {}, {"willRun": 1}, [("testStarted", {"name": NAME})], {"currtest_": 100}, "a test that runs"),
+        ("printCurrentTestStarted", {}, {"willRun": 0}, [("testStarted", {"name": NAME}), ("testIgnored", {"name": NAME})], {"currtest_": 100}, "an ignored test (testIgnored iff !willRun())"),
+        ("printCurrentTestEnded", {"currtest_": 100}, {}, [("testFinished", {"name": NAME, "duration": "123"})], {}, "finish names the test stored at start"),
+        ("printCurrentTestEnded", {"currtest_": 200}, {}, [("testFinished", {"name": OTHER, "duration": "123"})], {}, "finish names the test stored at start (another one)"),
+        ("printCurrentGroupStarted", {"currGroup_": ("str", "")}, {}, [("testSuiteStarted", {"name": GROUP})], {"currGroup_": ("str", GROUP)}, "suite start names and stores the group"),
+        ("printCurrentGroupEnded", {"currGroup_": ("str", GROUP)}, {}, [("testSuiteFinished", {"name": GROUP})], {}, "suite end names the stored group"),
+        ("printCurrentGroupEnded", {"currGroup_": ("str", "x]y")}, {}, [("testSuiteFinished", {"name": "x]y"})], {}, "suite end names the stored group (another one)"),
+    ]
+    for fname, env, ans, want, state, desc in CASES:
+        try:
+            text, env_after = fold_writer(fname, env, ans)
+        except Unknown as u:
+            run.broke("C20.R3: %s cannot be folded: %s" % (fname, u))
+            continue
+        msgs = parse_messages(text)
+        why = ""
+        if msgs is None:
+            why = "emitted text does not form complete ##teamcity[...]\\n messages: %r" % text
+        elif msgs != want:
+            why = "messages %s, expected %s (attribute values decoded)" % (msgs, want)
+        elif any(env_after.get(k) != v for k, v in state.items()):
+            why = "state after the writer: %s, expected %s" % ({k: env_after.get(k) for k in state}, state)
+        run.ob("R3", "%s folded: %s" % (fname, desc), CLS + "::" + fname, not why, witness=text, what=why)
+    for outside, helper in ((0, 0), (1, 0), (0, 1)):
+        try:
+            text, env_after = fold_writer("printFailure", {}, {"outside": outside, "helper": helper})
+        except Unknown as u:
+            run.broke("C20.R3: printFailure cannot be folded: %s" % u)
+            continue
+        msgs = parse_messages(text)
+        ok = msgs is not None and len(msgs) == 1 and msgs[0][0] == "testFailed" and msgs[0][1].get("name") == NAME and msgs[0][1].get("details") == "mess]age\nline2" \
+            and "fi'le.cpp:7" in msgs[0][1].get("message", "") and ((not (outside or helper)) or "te|st.cpp:3" in msgs[0][1].get("message", ""))
+        run.ob("R3", "printFailure folded [outside test file=%d, helper=%d]: one testFailed message whose name, location and details decode to the failure's own strings" % (outside, helper), CLS + "::printFailure", ok,
+               witness=text, what="" if ok else "the message does not decode to the failure's strings (or is not one complete message): %r" % text)
 
     # the failure message names the open test: printFailure prints getTestNameOnly(), which every TestFailure
     # constructor must fill from the test's plain name (this is what currtest_->getName() printed at start)
